@@ -45,6 +45,10 @@ PPL::Grid::Grid(const Grid& y, Complexity_Class)
     con_sys = y.con_sys;
     gen_sys = y.gen_sys;
   }
+  else if (y.marked_empty()) {
+    // As in operator=(): an empty grid carries the false congruence system.
+    set_empty();
+  }
   else {
     if (y.congruences_are_up_to_date()) {
       con_sys = y.con_sys;
